@@ -27,18 +27,18 @@ feat=$(echo "$demo_cmd" | grep -o -- '--features[= ][^ ]*' | head -1)
 demofile=demo.rs
 if [ -f "$src/demo.c" ]; then
   demofile=demo.c
-  demo_cmd=$(grep -m1 -o 'gcc .*' "$src/demo.c" | sed 's/ *\*\/ *$//')
+  demo_cmd=$(grep -m1 'gcc ' "$src/demo.c" | sed 's/^ *[*/]* *//; s/ *\*\/ *$//')
   mkdir -p "$wt/target"
-  run_demo() { ( cd "$wt" && eval "$demo_cmd" ) >>"$log" 2>&1; }
+  run_demo() { ( cd "$wt" && cp "$src/demo.c" demo.c && timeout 600 bash -c "$demo_cmd" </dev/null; rc=$?; rm -f demo.c demo; exit $rc ) >>"$log" 2>&1; }
   place_demo() { :; }
 elif [ -f "$src/demo.sh" ]; then
   demofile=demo.sh
   demo_cmd="bash $src/demo.sh"
-  run_demo() { ( cd "$wt" && bash "$src/demo.sh" ) >>"$log" 2>&1; }
+  run_demo() { ( cd "$wt" && timeout 1200 bash "$src/demo.sh" </dev/null ) >>"$log" 2>&1; }
   place_demo() { :; }
 else
   place_demo() { mkdir -p tests; cp "$src/demo.rs" "tests/$testname.rs"; }
-  run_demo() { cargo test --offline $ndf $feat --test "$testname" >>"$log" 2>&1; }
+  run_demo() { timeout 1200 cargo test --offline $ndf $feat --test "$testname" </dev/null >>"$log" 2>&1; }
 fi
 place_demo
 # without the patch: demo must pass
